@@ -102,6 +102,7 @@ func Run(h History, opt Options) *Outcome {
 	}
 	md := model.New(h.Cfg.Table)
 	md.NoParse = h.Cfg.NoParse
+	md.HasTerm = h.Cfg.Term != nil
 	if h.Cfg.CustomCaches {
 		md.StmtCap, md.PortalCap = h.Cfg.StmtCap, h.Cfg.PortalCap
 	}
